@@ -3,6 +3,7 @@ from ..rules_tables import Tables, grammar, T1_line_count, T5_T6_cost_depth
 from ..rules_flow import Flow
 from ..rules_k import K3_class_tables
 from ..rules_gate import K1_loader, K2_reader
+from ..rules_conv import U1_defined_attributes
 
 
 def run(tree, rep, tier):
@@ -21,6 +22,7 @@ def run(tree, rep, tier):
     rep.rules["T1"]["floor"] = 20
     for f in T.stray:
         rep.note(f"stray table file {f.name} (not advertised): linted like the others, not a violation by existing")
+    U1_defined_attributes(rep, flow, ['circuit_lookup'])
     rep.decided += ["one line per class id (T1)", "four fields / integer columns / indices < n (T3)",
                     "documented gate vocabulary, arity, distinct operands (T2)",
                     "cost column = counted two-qubit cost, SWAP = 3 (T5)", "depth column = scheduled two-qubit depth (T6)",
